@@ -78,6 +78,15 @@ CHECKS["C20"] = ("exploration",
     "The history generators of C01 and C02 (with widened payloads: 12-key metadata tables incl. nested ones, 8 per-process env dirs, full exec.d sets) and detect+build phase scenarios (3 or-groups x 8 provides/requires with 12-key metadata, 12 labels with duplicated keys in random order, 6 processes, 13+12-key store, all SBOM kinds) each run in three fresh OS processes (fresh RandomState seeds, different PIDs/times, roots of different length and depth); <layers>, the build plan, launch.toml, store.toml, <layer>.toml, env files, exec.d and SBOM files must be byte-identical after every step.",
     "Trusted: snapshot comparison only. A leak of hash order over >=8 keys would show with probability > 0.999 per scenario.")
 
+CHECKS["C11"] = ("exploration",
+    "runtime monitoring: delete/recreate through the four public routes on generated hostile layer trees, executed as an unprivileged uid under an LD_PRELOAD libc effect tracer; before/after snapshots of everything outside the layer plus the physical target of every mutating call are judged for containment",
+    "Generated trees under <layers>/<name> (depth <=4, directory modes 755/555/666/000/311/700, file modes 000-755, symlinks to files/dirs inside the layer, in a sibling layer, in a canary tree beside <layers>, relative and absolute, dangling, self- and mutual loops, '..', the layers root; the layer path itself being a directory or a symlink to a sibling dir / canary dir / canary file / nowhere; dotted layer names whose stem is the sibling's name) are removed via uncached_layer, cached_layer+DeleteLayer, handle_layer+Recreate and migration RecreateLayer as uid 65534. Oracle: the snapshot (content, mode, link target) of everything except the layer's own dir/toml/SBOM files is unchanged; every successful open-for-write / mkdir / unlink / rmdir / rename / chmod / symlink / truncate / write traced by fsshim has its physical target inside the layer dir (not through links) or on the layer's own toml/SBOM files; on Ok nothing of the old tree remains.",
+    "Trusted: shim/fsshim.c (physical target = realpath(dirname)/basename for entry-acting calls, realpath(path) for link-following ones), vp.snapshot. Needs setpriv to drop to uid 65534 (else inconclusive). One defect found here was repaired (fix: 74147eb).")
+CHECKS["C12"] = ("fault_enumeration",
+    "runtime monitoring with fault injection: for 17 representative layer / runtime operations a count pass records the sequence of libc file-system calls beneath the work prefix, then the operation is re-run once per call position with that call failing (LD_PRELOAD k-th-call injector); result and directory snapshot are compared with the fault-free run",
+    "Operations: cached_layer on nothing / keep / delete (nested tree) / invalid-metadata replace, uncached_layer over an existing layer, write_metadata, write_env over an old env with per-process scopes, write_sboms and write_exec_d_programs over old ones, handle_layer create / keep / update / recreate / migrate-replace with full results, and the real runtime as detect (pass+plan) and build (launch+store+SBOMs; with pre-existing longer outputs). Every position k of open (read/write/dir), read, write, mkdir, unlink, rmdir, rename, chmod, readdir, truncate calls x errno EIO (quick) / EIO, EACCES, ENOSPC (thorough). A fired fault followed by success is a violation unless the whole work tree is byte-identical to the fault-free run; a fault that never fires is inconclusive.",
+    "Trusted: shim/fsshim.c. The scripted callbacks' own file operations are excluded from injection (vp_shim_pause). stat-family calls and ENOENT are never injected.")
+
 PENDING = {}
 
 
